@@ -39,6 +39,15 @@ Definition flags3 (f : bool * bool * bool) : list N := [b2n (fst (fst f)); b2n (
 Definition m_flags (s : st) (univ : list N) := map (fun d => d :: flags3 (exists_flags s d)) univ.
 Definition m_carried (s : st) (ds_ : list N) := map (fun d => d :: flags3 (exists_flags_carried s d)) ds_.
 Definition m_located (s : st) (univ : list N) := map (fun d => [d; b2n (located s d)]) univ.
+(* the bulk interfaces asked about the whole universe in one call *)
+Definition m_many (s : st) (univ : list N) := map (fun d => d :: flags3 (exists_many_flags s univ d)) univ.
+Definition m_stored_many (s : st) (univ : list N) := map (fun d => [d; b2n (stored_many s univ d)]) univ.
+(* query_datasets over every CHAINED collection: [chain; dataset] *)
+Definition m_chainview (s : st) (univ : list N) :=
+  flat_map (fun p => match snd p with
+                     | Chain => map (fun d => [fst p; d]) (filter (chain_member (S (S (length (chains s)))) s (fst p)) univ)
+                     | _ => []
+                     end) (colls s).
 
 Record obs := Obs {
   o_out : N;
@@ -52,7 +61,10 @@ Record obs := Obs {
   o_files : list (list N);     (* root listing: [run; key] *)
   o_flags : list (list N);     (* Butler.exists(ref) for every id of the universe: [id; RECORDED; DATASTORE; _ARTIFACT] *)
   o_located : list (list N);   (* Registry.getDatasetLocations: [id; 0/1] *)
-  o_carried : list (list N)    (* Butler.exists(ref carrying datastore records) for the ids that have such a ref *)
+  o_carried : list (list N);   (* Butler.exists(ref carrying datastore records) for the ids that have such a ref *)
+  o_many : list (list N);      (* Butler._exists_many(all refs of the universe): [id; RECORDED; DATASTORE; _ARTIFACT] *)
+  o_stored_many : list (list N); (* Butler.stored_many(all refs of the universe): [id; 0/1] *)
+  o_chainview : list (list N)  (* query_datasets over every CHAINED collection: [chain; id] *)
 }.
 
 Section Universe.
@@ -71,7 +83,10 @@ Section Universe.
     if negb (seteq (m_files s) (o_files b)) then 9 else
     if negb (seteq (m_flags s univ) (o_flags b)) then 10 else
     if negb (seteq (m_located s univ) (o_located b)) then 11 else
-    if negb (seteq (m_carried s (map (fun r => match r with d :: _ => d | [] => 0 end) (o_carried b))) (o_carried b)) then 12
+    if negb (seteq (m_carried s (map (fun r => match r with d :: _ => d | [] => 0 end) (o_carried b))) (o_carried b)) then 12 else
+    if negb (seteq (m_many s univ) (o_many b)) then 13 else
+    if negb (seteq (m_stored_many s univ) (o_stored_many b)) then 14 else
+    if negb (seteq (m_chainview s univ) (o_chainview b)) then 15
     else 0.
 
   Fixpoint chk_from (s : st) (i : N) (h : list (op * obs)) : list N :=
